@@ -684,6 +684,9 @@ def _(c):
         OB = opt_sort(z3.BoolSort())
         return s.self.openpgp_signed == OB.some(z3.BoolVal(False))
     c.exc_ensures('never-signed-when-loading-fails', 'BaseException', not_signed_on_failure, props=['C04', 'C05'])
+    # what a caller that does not ask for verification can rely on (find_top_level_manifest, unverified loads)
+    c.exc_ensures('assertion-only-when-verifying', 'AssertionError', lambda s: s.verify_openpgp, props=['C18'])
+    c.exc_ensures('foreign-exceptions-only-from-the-verifier', '<opaque>', lambda s: s.verify_openpgp, props=['C18'])
 
 
 # --------------------------------------------------------------------------
